@@ -59,6 +59,11 @@ def run(ctx, ck) -> None:
     _r_red(ck, world, table)
     _r_pure(ck, world, table, rules)
     _r_raise(ck, world, table, rules, infos)
+    # where the driver was executed abstractly (R-NARY "normal form by execution": chains that cancel partly, entirely, that are
+    # made of identities only, with scalars produced during the scan), the clauses on the written form of the same function
+    # that could not be decided are superseded
+    if any(o.rule.endswith('R-NARY') and 'normal form by execution' in o.construct and o.status == 'ok' for o in ck.obs):
+        ck.obs[:] = [o for o in ck.obs if not (o.rule.endswith('R-DRV') and o.status == 'incomplete' and 'AlgebraicReductionRule' in o.construct)]
 
 
 # ------------------------------------------------------------------------------ R-DEL
